@@ -1171,6 +1171,112 @@ fn run(f: &[&str]) -> Option<String> {
                 }
             }
         }
+        // the same questions over an input of 2^32 octets and more (zero octets, lazily mapped: only the pages that are
+        // read are ever touched): a declared length is honoured whatever follows it, however much of it there is
+        // encoding into a writer that already holds 2^32 octets and more (zero octets, lazily mapped; only the first
+        // MiB, the last pages in front of the new octets and the new octets themselves are looked at afterwards)
+        "encbig" | "encabig" => {
+            let size: usize = f.get(1)?.parse().ok()?;
+            if size > (1usize << 33) {
+                return None;
+            }
+            let msg = if op == "encbig" { Some(TMsg::parse(f.get(2)?)?.to_crate()?) } else { None };
+            let avp = if op == "encabig" { Some(to_crate(&TAvp::parse(f.get(2)?)?)?) } else { None };
+            let fresh = match (&msg, &avp) {
+                (Some(m), _) => enc_msg_into(&[], m).data,
+                (_, Some(a)) => enc_avp_into(&[], a).data,
+                _ => None,
+            };
+            let got = guard(|| {
+                let mut w = VecWriter::new();
+                w.data = vec![0u8; size];
+                if let Some(m) = &msg {
+                    m.write(&mut w);
+                }
+                if let Some(a) = &avp {
+                    a.write(&mut w);
+                }
+                let d = std::mem::take(&mut w.data);
+                let tail = d.get(size..).map(|x| x.to_vec()).unwrap_or_default();
+                let head = size.min(1 << 20);
+                let clean = d.len() >= size && d[..head].iter().all(|&x| x == 0) && d[size - size.min(1 << 16)..size].iter().all(|&x| x == 0);
+                (tail, clean)
+            });
+            match (&got, &fresh) {
+                (None, None) => "panic | ok".to_string(),
+                (None, Some(_)) => "panic | FAIL:c09-append:refused-behind-a-large-prefix&FAIL:c03-rt:refused-behind-a-large-prefix&FAIL:c06-octets:refused-behind-a-large-prefix&FAIL:c07-refusal:refused-behind-a-large-prefix".to_string(),
+                (Some((tail, clean)), fr) => {
+                    let same = fr.as_ref().map(|x| x == tail).unwrap_or(false) && *clean;
+                    let orc = if same {
+                        "ok".to_string()
+                    } else {
+                        let why = if !*clean { "earlier-octets-changed" } else { "appended-octets-differ-from-the-value-alone" };
+                        format!("FAIL:c09-append:{w}&FAIL:c03-rt:{w}&FAIL:c06-octets:{w}&FAIL:c07-exact:{w}", w = why)
+                    };
+                    format!("ok tail={} clean={} | {}", hex(tail), if *clean { 1 } else { 0 }, orc)
+                }
+            }
+        }
+        "sfxbig" => {
+            let o = opts_of(f.get(1)?)?;
+            let b = unhex(f.get(2)?)?;
+            let size: usize = f.get(3)?.parse().ok()?;
+            if size < b.len() || size > (1usize << 34) {
+                return None;
+            }
+            let a = dec_slice_raw(&b, &o);
+            match &a {
+                Some((Ok(m), rem)) if has_declared_len(m) => {
+                    let consumed = b.len() - rem;
+                    let mut buf = vec![0u8; size];
+                    buf[..consumed].copy_from_slice(&b[..consumed]);
+                    let r2 = dec_slice_raw(&buf, &o);
+                    let mut v = vec![];
+                    match &r2 {
+                        Some((Ok(m2), rem2)) if m2 == m && *rem2 == size - consumed => {}
+                        other => v.push(format!("FAIL:c08-sfx:with-{}-octets-behind-{}", size - consumed, show(other).replace(' ', "_"))),
+                    }
+                    format!("a={} b={} | {}", show(&a), show(&r2), join(v))
+                }
+                _ => format!("a={}", show(&a)),
+            }
+        }
+        // a data message without Length field in front of `size - |image|` zero octets: the payload is everything that
+        // follows the header (its length is reported, not its octets)
+        "paybig" => {
+            let b = unhex(f.get(1)?)?;
+            let size: usize = f.get(2)?.parse().ok()?;
+            if size < b.len() || size > (1usize << 34) {
+                return None;
+            }
+            let mut buf = vec![0u8; size];
+            buf[..b.len()].copy_from_slice(&b);
+            let o = ValidationOptions { reserved: ValidateReserved::No, version: ValidateVersion::Yes, unused: ValidateUnused::No };
+            guard(|| {
+                let mut r = SliceReader::from(&buf[..]);
+                match Message::<&[u8]>::try_read_validate(&mut r, o.clone()) {
+                    Ok(Message::Data(d)) => format!("ok data p={} len={} tid={} sid={} payload={} rem={}", if d.is_prioritized { 1 } else { 0 }, d.length.map(|x| x.to_string()).unwrap_or("-".into()), d.tunnel_id, d.session_id, d.data.len(), r.len()),
+                    Ok(Message::Control(_)) => "ok control".to_string(),
+                    Err(es) => format!("err {}", render_errs(&es)),
+                }
+            })
+            .unwrap_or_else(|| "panic".into())
+        }
+        "rdbig" => {
+            // rdbig <size> <ops>: a reader over `size` zero octets whose first and last eight are 0xa0.. and 0xb0..
+            let size: usize = f.get(1)?.parse().ok()?;
+            if size < 16 || size > (1usize << 34) {
+                return None;
+            }
+            let mut buf = vec![0u8; size];
+            for i in 0..8 {
+                buf[i] = 0xa0 + i as u8;
+                buf[size - 8 + i] = 0xb0 + i as u8;
+            }
+            let (imp, refr) = rd_run(&buf, f.get(2)?);
+            let orc = if imp == refr { "ok".to_string() } else { format!("FAIL:c18-reader:reference-says-{}", refr) };
+            format!("{} | {}", imp, orc)
+        }
         "rd" => {
             let d = unhex(f.get(1)?)?;
             let (imp, refr) = rd_run(&d, f.get(2)?);
@@ -1319,8 +1425,34 @@ fn run(f: &[&str]) -> Option<String> {
                 _ => return None,
             };
             let d = enc_avp_into(&[], &a).data?;
-            let orc = if d.len() == 10 && d[6..] == w.to_be_bytes() { "ok".to_string() } else { "FAIL:c17-word:re-encoded-word-differs".to_string() };
-            format!("enc={} a={} b={} | {}", hex(&d[6.min(d.len())..]), x as u8, y as u8, orc)
+            let mut v = vec![];
+            if !(d.len() == 10 && d[6..] == w.to_be_bytes()) {
+                v.push("FAIL:c17-word:re-encoded-word-differs".to_string());
+            }
+            // back through the decoder, with the slice reader, a structurally different reader, and one whose
+            // bytes() never succeeds: the word comes back, or (from the last) an error — never another word
+            let want = format!("[{}]", t.render());
+            let via_slice = guard(|| {
+                let mut r = SliceReader::from(&d[..]);
+                render_avp_list(&AVP::try_read_greedy(&mut r))
+            });
+            let via_deque = guard(|| {
+                let mut r = crate::readers::DequeReader::new(&d);
+                render_avp_list(&AVP::try_read_greedy(&mut r))
+            });
+            let via_refusing = guard(|| {
+                let mut r = crate::readers::RefusingReader::new(&d);
+                let l = AVP::try_read_greedy(&mut r);
+                (l.len() == 1 && l[0].is_err(), render_avp_list(&l))
+            });
+            if via_slice.as_deref() != Some(want.as_str()) || via_deque.as_deref() != Some(want.as_str()) {
+                v.push(format!("FAIL:c17-word:decoded-{}-and-{}", via_slice.unwrap_or("panic".into()).replace(' ', "_"), via_deque.unwrap_or("panic".into()).replace(' ', "_")));
+            }
+            match via_refusing {
+                Some((is_err, text)) if is_err || text == want => {}
+                other => v.push(format!("FAIL:c17-reader:a-reader-whose-bytes()-refuses-gets-{}", other.map(|x| x.1).unwrap_or("panic".into()).replace(' ', "_"))),
+            }
+            format!("enc={} a={} b={} | {}", hex(&d[6.min(d.len())..]), x as u8, y as u8, join(v))
         }
         "name" => {
             let n: u16 = f.get(1)?.parse().ok()?;
